@@ -15,6 +15,7 @@ import (
 	"os"
 	"regexp"
 	"runtime"
+	"strings"
 	"sync"
 	"time"
 
@@ -35,6 +36,7 @@ type call struct {
 var queries = []string{
 	`$.a.b`, `$.xs[@.k.Greater(1)].name`, `{OR,$.a.b.Equal(1),$.s.Contains("x")}`, `$.xs.Select("$.k").Sum()`, `$.xs.k.Sum(1,2)`,
 	`$.s.Left(2)`, `$.missing?.IsNull()`, `$.xs.Count()`, `$.a.b.Add($.xs.First().k)`, `$.xs.Select("$.name.Prefix(\"n\")")`, `$.bad(`, ``, `$.s.DoesMatchRegex("^h")`,
+	`$.s.DoesMatchRegex($.p)`, `$.s.ReplaceRegex($.p,"<$0>")`, `$.xs.Select("$.name.DoesMatchRegex(\"n[0-9]\")")`, `$.a.RemoveKeysByRegex($.p)`, `$.s.Equal("unterminated`, `$.s.Equal('ab'))`,
 }
 
 var schemas = []string{
@@ -44,13 +46,15 @@ var schemas = []string{
 
 var vqueries = []string{`$.s1.result`, `$.input.name`, `$.input.name.Equal($.s1.result)`, `$.s2.result`, `$.input.zz`, `$.s1.result.First().k`}
 
-func docs() []any {
+// docs builds the documents; respell > 0 writes the regular expression `p` in a different but
+// equivalent spelling, so that a goroutine meets patterns no one has compiled before
+func docs(respell int) []any {
 	mk := func(n int) any {
 		xs := []any{}
 		for i := 0; i < n; i++ {
 			xs = append(xs, map[string]any{"k": float64(i), "name": fmt.Sprintf("n%d", i)})
 		}
-		return map[string]any{"a": map[string]any{"b": float64(n)}, "xs": xs, "s": "hello"}
+		return map[string]any{"a": map[string]any{"b": float64(n)}, "xs": xs, "s": "hello", "p": fmt.Sprintf("^h.{%d}", n) + strings.Repeat("(?:)", respell)}
 	}
 	return []any{mk(0), mk(1), mk(3), mk(7)}
 }
@@ -98,7 +102,7 @@ func main() {
 	rounds, total := 0, 0
 	for {
 		rng := rand.New(rand.NewSource(*seed + int64(rounds)))
-		ds := docs()
+		ds := docs(0)
 		ops := make([]mpath.Operation, len(queries))
 		for i, q := range queries {
 			ops[i], _ = mpath.ParseString(q)
@@ -147,6 +151,7 @@ func main() {
 			go func(t int) {
 				defer wg.Done()
 				r := rand.New(rand.NewSource(*seed*1000 + int64(t)))
+				ds := docs(1 + t + rounds*(*g)) // same content, regular expressions spelled as no one did before
 				for i, c := range plans[t] {
 					if r.Intn(3) == 0 {
 						runtime.Gosched()
